@@ -509,5 +509,5 @@ func TestVerif_C13(t *testing.T) {
 		"RangeDiffMaps is held to the documented physical-partition semantics: every matching diff reported, nothing but true diffs, contiguous and ordered; non-matching diffs inside the partition are allowed",
 		"keys compare equal only when their bytes are equal (no collations in the generated schemas)")
 	defer rec.Write(t)
-	vh.Check(t, "diff", 1800, 2500, func(rt *rapid.T) { c13Case(rt, rec) })
+	vh.Check(t, "diff", 3000, 2500, func(rt *rapid.T) { c13Case(rt, rec) })
 }
